@@ -36,6 +36,11 @@ def reader_cfg(base, maxfaults, src):
                       "  Cap = 1073741824", '  SrcKind = "%s"' % src, "INVARIANT FaultsOK", "INVARIANT LoopsAgree", "CHECK_DEADLOCK FALSE"]) + "\n"
 
 
+def link_cfg(maxfiles, matcher):
+    return "\n".join(["SPECIFICATION Spec", "CONSTANTS", '  ShiftCheck = "mul"', '  PendingOnError = "clear"', "  PendingWidth = 64", "  MaxFiles = %d" % maxfiles,
+                      '  LinkMatcher = "%s"' % matcher, "INVARIANT LinkOK", "CHECK_DEADLOCK FALSE"]) + "\n"
+
+
 def tlf_cfg(shift, first, nxt, maxlen):
     return "\n".join(["SPECIFICATION Spec", "CONSTANTS", '  ShiftCheck = "%s"' % shift, "  FirstBytes <- %s" % first, "  NextBytes <- %s" % nxt,
                       "  MaxLen = %d" % maxlen, "INVARIANT Exact", "CHECK_DEADLOCK FALSE"]) + "\n"
@@ -85,7 +90,7 @@ MC = {
                       "cfg": dec_cfg("TokPAY", "FirstPAY", 2, ["TypeOK", "RoundTrip", "NothingAfter", "Sound", "Tiles"], paylen=q(4, 6))},
     "capacity_pay": {"module": "MC_Decoder",
                      "cfg": dec_cfg("TokCAP", "FirstCAP", 2, ["TypeOK", "CapacityRule", "CapRespect", "Resync", "Tiles"],
-                                    caps=q("CapsQuick", "CapsThorough"), paylen=q(4, 7))},
+                                    caps=q("CapsQuick", "CapsThorough"), paylen=q(4, 6))},
     "frame_rle": {"module": "MC_FrameRle", "workers": 2, "cfg": "INIT Init\nNEXT Next\nINVARIANT Agree\nCONSTANTS\n  PayBytes = {27, 0, 85, 1}\n  PayLen = 6\nCHECK_DEADLOCK FALSE\n"},
     "arraybuf": {"module": "MC_ArrayBuf",
                  "cfg": lambda tier: "SPECIFICATION Spec\nCONSTANTS\n  Caps = {0, 1, 2, 3}\n  ByteVals = {0, 1}\n  MaxOps = %d\n  MaxSlice = %d\n  EmitJson = FALSE\n"
@@ -95,6 +100,10 @@ MC = {
     "reader_faults_3": {"module": "MC_Reader", "workers": 2, "cfg": lambda tier: reader_cfg(3, 2 if tier == "thorough" else 1, "io")},
     # the same schedules through the embedded-hal 0.2 serial source (no end of input, no Interrupted)
     "reader_faults_eh": {"module": "MC_Reader", "workers": 2, "cfg": lambda tier: reader_cfg(1, 2 if tier == "thorough" else 1, "eh")},
+    # end to end on the specification: abstract files -> SmlEncode -> either transport encoder -> wire with noise -> reader loop -> both parsers
+    "link_1": {"module": "MC_Link", "workers": 8, "cfg": link_cfg(1, "kmp")},
+    "link_2": {"module": "MC_Link", "workers": 12, "cfg": link_cfg(2, "kmp")},
+    "neg_link_drop": {"module": "MC_Link", "workers": 4, "expect": "LinkOK", "cfg": link_cfg(1, "drop")},
     "grammar": {"module": "MC_Grammar", "workers": 8,
                 "cfg": lambda tier: grammar_cfg(mall="TRUE" if tier == "thorough" else "FALSE")},
     "neg_pending_keep": {"module": "MC_Grammar", "workers": 8, "expect": "Terminates", "cfg": grammar_cfg(poe="keep", invs=("Terminates",))},
@@ -206,7 +215,10 @@ PROPS = {
                   "followed by 3 frames; the antecedent (no start sequence in noise / no escape in progress) is evaluated by the monitor"),
                 mc={"quick": ["resync_noise", "resync_calls", "contract_noise"], "thorough": ["resync_noise", "resync_calls", "contract_noise"]},
                 proofs=["matcher"],
-                steps=[{"cmd": "c08", "judge": "J_C08"}]),
+                steps=[{"cmd": "c08", "judge": "J_C08"},
+                       # the stream families of C17 (ADV / INFRAME / HIST / NOISE / corpus / mutations), judged as whole behaviours: at every
+                       # boundary a valid frame is delivered and the noise before it reported (Contract mode "c08")
+                       {"cmd": "c17", "judge": "J_ContractC08", "cfg": "JudgeN.cfg"}]),
     "C14": dict(T("for every boundary event (ok, oom, invalid message, invalid escape, finalize, reset) in HIST / INFRAME / history-prefixed ADV streams, corpus and mutations, and capacities "
                   "{growable,0,1,2,5}: events of the continuing decoder vs. a new decoder on the same continuation"),
                 mc={"quick": ["boundary_hist"], "thorough": ["boundary_hist"]},
@@ -240,7 +252,7 @@ PROPS = {
                          "sequence), read through SmlReader over slice / iterator / io::Read with the default 8 KiB, ArrayBuf<N> and Vec buffers, with per-call choices of read vs next and of "
                          "DecodedBytes / File / Parser; each record also carries the hand composition decode_streaming + parse / Parser::new",
                  "assumptions": PARSER_ASSUME + TRANSPORT_ASSUME[:2]},
-                mc={"quick": ["reader_faults_1"], "thorough": ["reader_faults_1", "reader_faults_2", "reader_faults_3"]},
+                mc={"quick": ["reader_faults_1", "link_1"], "thorough": ["reader_faults_1", "reader_faults_2", "reader_faults_3", "link_1", "link_2"]},
                 steps=[{"cmd": "c10", "judge": "J_C10", "cfg": "JudgeP.cfg"}]),
     "C11": dict(T("4 base streams (noise, frames with withheld zeros / literal escapes / re-alignment / bad checksum, cut frame, partial start sequence) x end of input at every (third) position x one fault of "
                   "{would-block, interrupted, other} at every position x {next, read, next_nb, read_nb}; two faults exhaustively (thorough) or sampled; random 2-4 fault schedules; corpus frames with random "
@@ -266,7 +278,7 @@ PROPS = {
                 mc={"quick": ["tiles_adv", "tiles_hist", "contract_hist"], "thorough": ["tiles_adv", "tiles_hist", "contract_hist", "sim_contract", "resync_noise"]},
                 proofs=["matcher"],
                 steps=[{"cmd": "c17", "judge": "J_C17", "profile": "wrapping"}, {"cmd": "c17", "judge": "J_C17", "profile": "checked"},
-                       {"cmd": "c17", "judge": "J_Contract", "profile": "checked", "cfg": "JudgeN.cfg", "reuse": True}]),
+                       {"cmd": "c17", "judge": "J_ContractC17", "profile": "checked", "cfg": "JudgeN.cfg", "reuse": True}]),
 }
 
 NOT_APPLICABLE = {}
@@ -295,7 +307,7 @@ MANIFEST_TEXT = {
               "result and error kind, on the corruption families.", "5/C09", "TLC-judged differential trace validation (J_C09)", _NOTE_P),
     "C10": _t("TLC recomputes the transmission layout from the files and noise (Frame.Canonical), the expected value of every call (payload / SmlGrammar.ParseFile / StreamParser.StreamItems of the file), the "
               "discarded-bytes reports and the end-of-input behaviour, and compares them and the hand composition with what the real SmlReader returned for 3 sources x 3 buffer kinds x per-call target choices; "
-              "the reader loop itself is model-checked under fault schedules (MC_Reader).", "5/C10", "TLC model checking of the reader spec + TLC-judged end-to-end trace validation (J_C10)", _NOTE_P),
+              "the reader loop itself is model-checked under fault schedules (MC_Reader).", "5/C10", "TLC model checking of the reader spec and of the end-to-end link spec (MC_Link: files -> SmlEncode -> encoders -> noisy wire -> reader -> both parsers) + TLC-judged end-to-end trace validation (J_C10)", _NOTE_P),
     "C11": _t("TLC checks the clauses of FaultRule (transparency of would-block/interrupted, exactly-once would-block, exact count and fresh-reader continuation after other errors, None rule, byte accounting) on "
               "the specification's reader for every placement of up to 1 (quick) / 2 (thorough) faults and every cut of 3 base streams, and judges the same clauses on ~23 k recorded schedules of the real "
               "SmlReader over a fault-injecting io::Read for all four APIs.", "5/C11", "TLC model checking under fault schedules + TLC-judged trace validation (J_C11)"),
